@@ -64,8 +64,18 @@ def body(inst):
                 I.ctx.inputs.append(('o%d_%d' % (k, i), c, 'char'))
                 cs.append(c)
             outs.append(cs)
-        head = [I.sym_char('h%d' % i, exclude=CTX_EXCLUDE) for i in range(inst['hl'])]
-        tail = [I.sym_char('t%d' % i, exclude=CTX_EXCLUDE) for i in range(inst['tl'])]
+        def ctx_char(name, allow_dollar):
+            # surrounding text: any scalar (newline included - `"$(cmd)<NL>rest"`) except quotes, backquote, backslash, parentheses;
+            # `$` is allowed where it cannot start another substitution (not directly before the `$(` / backquote)
+            c = I.ctx.bv(name, 32)
+            cs = [z3.ULT(c, 0x110000), z3.Or(z3.ULT(c, 0xD800), z3.UGT(c, 0xDFFF)), c != 0]
+            for x in CTX_EXCLUDE:
+                if x == '$' and allow_dollar: continue
+                cs.append(c != ord(x))
+            I.ctx.assume(z3.And(*cs)); I.ctx.inputs.append((name, c, 'char'))
+            return c
+        head = [ctx_char('h%d' % i, i < inst['hl'] - 1) for i in range(inst['hl'])]
+        tail = [ctx_char('t%d' % i, True) for i in range(inst['tl'])]
         inner = 'out ' + hexof(inst['ol'])
         if form.startswith('bad'): inner = '>'
         calls = []
